@@ -30,6 +30,10 @@ CHECKS = {
    text="Round-trip properties over generated Data trees (all byte values) and Events, parser robustness over damaged JSON text and raw bytes under ASan/UBSan, and a coverage-guided libFuzzer campaign on Data::fromJSON (about 2M executions per quick run); failures shrink to minimal trees / inputs and are replayed from committed corpus files.",
    note="Trusted: independent JSON printer and dumper in the harness; sanitizers. Top-level atoms and empty containers are outside the asserted domain (by the code's own contract).",
    technique="round-trip property-based testing (Hypothesis) + libFuzzer with sanitizers"),
+ 'C17': dict(category='exploration', design_ref='DESIGN.md §4 C17',
+   text="Generated typed expression ASTs (all operators the datamodel evaluates, unary minus, array/field access) printed with minimal and with full parentheses, evaluated by the Promela datamodel in a sanitizer build and in a plain g++ build, compared with a reference evaluator with C int semantics that tracks undefined behaviour; assignment sequences with read-back; an ill-formed class that must yield error.execution and never a crash or hang.",
+   note="Trusted: the reference evaluator and the two printers (cross-checked against each other by the metamorphic relation). C-undefined cases (overflow) only demand 'no crash'. ++/-- not reachable through the API.",
+   technique="property-based testing against a reference evaluator + metamorphic parenthesisation (Hypothesis), two builds"),
 }
 NOT_YET = "check not implemented yet in this session (see DESIGN.md §11 for the plan)"
 
